@@ -84,6 +84,17 @@ def scans(run):
                             run.syntactic(f"{cq}.{fn.name}:state:field-{t.attr}@{n.lineno}", "frame", ok, _ast.unparse(n)[:90], where=f"{cq}.{fn.name}:{n.lineno}",
                                           meta={"clause": "the process-wide default Analyzer and the registered analyses (Analysis.ALL instances) hold no per-query state",
                                                 "weak": not ok})
+    # where an opcode sat in its stream (Opcode.pos) is not part of the pickle's bytes: only the parser (and repr) may look at it
+    pos_readers_allowed = ("fickle.Opcode.__init__", "fickle.Opcode.__repr__", "fickle.Pickled.load", "fickle.StackedPickle.load")
+    for q, fn in run.repo.qual.items():
+        if q.split(".")[0] not in ("fickle", "analysis", "tracing", "loader", "cli"):
+            continue
+        for n in _ast.walk(fn):
+            if isinstance(n, _ast.Attribute) and n.attr in ("pos", "position") and isinstance(n.ctx, _ast.Load):
+                ok = any(q == a or q.startswith(a + ".") for a in pos_readers_allowed)
+                run.syntactic(f"{q}:determinism:reads-stream-offset@{n.lineno}", "frame", ok, _ast.unparse(n)[:60] +
+                              (" (parser / repr)" if ok else " — the offset differs between a pickle read at the start of a stream, inside a stack, or re-parsed from its own bytes"),
+                              where=f"{q}:{n.lineno}", meta={"clause": "no query reads the stream offset of an opcode", "weak": not ok})
     # iteration over sets: allowed only where what is produced is consumed as a set / by key
     mod, fn = run.repo.function("fickle.Interpreter.unused_assignments")
     src = _ast.unparse(fn)
